@@ -14,12 +14,14 @@ ASSUMPTIONS = [
     "job-store writes of the block-end transitions do not fail (local LevelDB of the node); the node-local inputs (witness flag, "
     "validator address, presence of the broadcast job) are explicit parameters and the theorems hold for all of them",
     "authorisation of the signer of a finality report is C04's subject: the theorems count a vote by WHO the report says the validator is",
-    "ERC-20 lock/redeem handlers (ext_ERC20Lock.go, ext_ERC20redeem.go) are not modelled: tracker types 3/4 never arise in the model",
+    "ERC-20: only runERC20Lock's effect on the tracker stores is modelled (do_lock_erc, outside op/step); the ERC-20 mint/burn side and "
+    "ext_ERC20redeem.go are not; that part is tied to the code by two scripted scenarios on the real application (`vh c15 -erc20`), not by generated runs",
     "redeem byte strings that make ParseRedeem panic (no selector inside) and negative vote indices are never submitted by the harness "
     "(both crash the real node: C18's subject); the model returns Crash for the negative index",
 ]
 
-TRIGGERS = {1: "C15.mint_to_report_locker", 2: "C15.supply_address_transacts"}
+ERC_TRIGGER = "C15.erc20_lock_no_existence_check"
+TRIGGERS = {2: "C15.supply_address_transacts"}   # C15.mint_to_report_locker is fixed (/repo b01fdf0): its witness is corpus case 0, expected to hold
 CHECKS = {1: "one tracker per external transaction name across the three stores",
           2: "supply counter = wrapped tokens in circulation",
           3: "every change of a wrapped balance is a transfer, a redeem debit, a threshold-crossing mint of the locked amount to the "
@@ -27,7 +29,9 @@ CHECKS = {1: "one tracker per external transaction name across the three stores"
           4: "recorded tracker fields never change and a vote slot changes only by the recorded witness of an empty slot",
           5: "at most one mint and one refund per tracker name",
           6: "mint / refund happen in the transaction that crosses the threshold",
-          7: "a tracker is created only by an accepted lock/redeem of a name in no store, with empty slots (redeem: debited in the same step)"}
+          7: "a tracker is created only by an accepted lock/redeem of a name in no store, with empty slots (redeem: debited in the same step)",
+          8: "REGRESSION of the repaired defect C15.mint_to_report_locker: the locked amount was credited to the Locker named in the "
+             "threshold-crossing report instead of the account that submitted the lock"}
 
 
 def run_shard(vh, out_dir, shard, args):
@@ -62,9 +66,14 @@ def evaluate(ctx, vh, shard_args):
     return reps, cases, sorted(mm), sorted(sv), st
 
 
+SCRIPTS = []   # the scripted corpus cases: they are cases 0.. of shard 0
+
+
 def payload(cases, shard, ci, step, extra):
     c = cases[shard][ci]
     lo = max(0, step - 12)
+    if shard == 0 and ci < len(SCRIPTS):
+        extra = dict(extra, script=SCRIPTS[ci], kind_of_case="scripted corpus case %d" % ci)
     return dict(extra, cfg=c["Cfg"], scripted=(c["Cfg"]["Blocks"] == 0), first_bad_step=step,
                 steps_before=[c["Descr"][j] + (" -> ok" if c["Obs"][j]["Ok"] else " -> fail") for j in range(lo, min(step + 1, len(c["Descr"])))],
                 observed=c["Obs"][step] if step < len(c["Obs"]) else None,
@@ -91,6 +100,41 @@ def judge(ctx, cases, mm, sv):
     return found
 
 
+def erc20_probe(ctx, vh):
+    """The two ERC-20 lock resubmission scenarios on the real application (runERC20Lock has no existence check).
+    Outcome per scenario: 'holds' (resubmission refused, one mint to the first submitter), 'defect' (exactly the recorded
+    effect of the known finding, which is also what do_lock_erc in Tracker.v predicts for the stores), anything else = violation."""
+    out = os.path.join(ctx.scratch, "c15_erc20.json")
+    rc, log = sh([vh, "c15", "-erc20", out], timeout=600)
+    if rc != 0:
+        raise Broken("C15 ERC-20 probe failed to run", log[-2000:])
+    scs = json.load(open(out))
+    res = {}
+    for tag, sc in zip("AB", scs):
+        steps = sc["steps"]
+        relock = [i for i, s in enumerate(steps) if "SAME external tx" in s["do"]][0]
+        r, fin = steps[relock], sc["final_ttc"]
+        if not r["ok"]:
+            ok = fin == {"acct1": "100", "acct2": "0", "acct99": "100"}
+            res[tag] = "holds" if ok else "other"
+        elif tag == "A":
+            model_stores = len(r["ongoing"] or []) == 1 and len(r["passed"] or []) == 1 and sum(r["ongoing"][0]["Votes"]) == 0
+            res[tag] = "defect" if model_stores and fin == {"acct1": "200", "acct2": "0", "acct99": "200"} else "other"
+        else:
+            on = r["ongoing"] or []
+            model_stores = len(on) == 1 and on[0]["Owner"] == 2 and sum(on[0]["Votes"]) == 0
+            res[tag] = "defect" if model_stores and fin == {"acct1": "0", "acct2": "100", "acct99": "100"} else "other"
+    ctx.coverage["erc20_probe"] = {t: {"outcome": res[t], "scenario": sc["scenario"], "final_ttc": sc["final_ttc"]} for t, sc in zip("AB", scs)}
+    for tag, sc in zip("AB", scs):
+        if res[tag] == "holds":
+            continue
+        if res[tag] == "defect" and ctx.known_finding(ERC_TRIGGER, ""):
+            continue
+        ctx.violation("erc20_%s" % tag, {"kind": "erc20probe", "scenario": sc, "outcome": res[tag],
+                                         "how": "./check replay <this file> (re-runs `vh c15 -erc20` on the current tree)"})
+    return res
+
+
 def run(ctx):
     broken = None
     try:
@@ -103,6 +147,8 @@ def run(ctx):
         nshard, n, blocks = 16, 12, 60
     else:
         nshard, n, blocks = 8, 5, 40
+    if os.path.exists(corpus):
+        SCRIPTS[:] = json.load(open(corpus))
     shard_args = []
     for i in range(nshard):
         a = ["-seed", str(ctx.seed), "-n", str(n), "-blocks", str(blocks)]
@@ -126,13 +172,17 @@ def run(ctx):
         "mints_observed": sum(r["mints_observed"] for r in reps.values()), "refunds_observed": sum(r["refunds_observed"] for r in reps.values()),
         "genuine_votes": st[0], "crossings_yes": st[1], "crossings_no": st[2], "crossings_with_lying_locker": st[3], "steps_in_supply_trigger": st[4],
         "model_mismatches": len(mm), "monitor_findings": len(sv),
-        "monitor_findings_by_class": {str(k): sum(1 for x in sv if x[4] == k) for k in (0, 1, 2)},
+        "monitor_findings_by_class": {str(k): sum(1 for x in sv if x[4] == k) for k in (0, 2)},
+        "corpus_cases": len(SCRIPTS),
+        "fixed_finding_witness_holds": (not any(x[0] == 0 and x[1] == 0 for x in sv)) and (not any(x[0] == 0 and x[1] == 0 for x in mm)),
         "samples": [s for r in reps.values() for s in r["samples"]][:3],
         "explanation": "theorems of props/C15.v re-checked; Tracker.v evaluated by vm_compute on every step of every recorded run of the real "
                        "application, comparing result code, the three tracker stores (type, state, witnesses, vote slots, owner, external tx) and all wrapped "
                        "balances (model_mismatches must be 0); the property monitor (TrackerCheck.v, 7 checks) is evaluated on the IMPLEMENTATION's observed "
-                       "states; findings inside a Coq-defined trigger region with the recorded effect signature are known findings, anything else a violation",
+                       "states; findings inside a Coq-defined trigger region with the recorded effect signature are known findings, anything else a violation; "
+                       "corpus case 0 is the lying-witness history of the repaired defect C15.mint_to_report_locker and must satisfy every check",
     })
+    erc20_probe(ctx, vh)
     judge(ctx, cases, mm, sv)
     if broken is not None and ctx.violations == 0:
         raise broken
@@ -143,7 +193,11 @@ def replay(ctx, rp):
     ok, log = common.coq_make(["theories/TrackerCheck.vo"])
     if not ok:
         raise Broken("model does not build", log[-2000:])
+    if rp.get("kind") == "erc20probe":
+        print("erc20 probe outcome per scenario:", erc20_probe(ctx, vh))
+        return
     tmp = os.path.join(ctx.scratch, "one.json")
+    SCRIPTS[:] = [rp["script"]] if "script" in rp else []
     if rp.get("kind") == "script" or "script" in rp:
         json.dump([rp["script"]], open(tmp, "w"))
         args = ["-n", "0", "-script", tmp]
